@@ -126,6 +126,13 @@ def strOK (s : Bytes) : Prop := s.length < 2147483648
 def kvsOK (kvs : List (Bytes × Bytes)) : Prop :=
   kvs.length < 4294967296 ∧ ∀ kv ∈ kvs, strOK kv.1 ∧ strOK kv.2
 
+/-- the values the wire format can carry (a Go map has distinct keys) -/
+def BaseOK (p : Base) : Prop :=
+  strOK p.logID ∧ strOK p.caller ∧ strOK p.addr ∧ ∀ m, p.extra = some m → SMap.WF m ∧ kvsOK m
+def BaseRespOK (p : BaseResp) : Prop :=
+  strOK p.statusMessage ∧ isI32 p.statusCode ∧ ∀ m, p.extra = some m → SMap.WF m ∧ kvsOK m
+def AppExOK (e : AppEx) : Prop := strOK e.msg ∧ isI32 e.typ
+
 /-- an unknown field: any id, any non-STOP type, one well-formed value of that type (nesting ≤ 64) -/
 def unkOK (id : Nat) (t : UInt8) (v : Bytes) : Prop :=
   id < 65536 ∧ t ≠ 0 ∧ refLen 64 t v = some v.length
@@ -154,6 +161,10 @@ def apply (p : Base) : BaseFld → Base
   | unknown _ _ _ => p
 end BaseFld
 
+/-- which field of the IDL a list element sets (0 = none) -/
+def BaseFld.kind : BaseFld → Nat
+  | .logID _ => 1 | .caller _ => 2 | .addr _ => 3 | .extra _ => 6 | .unknown _ _ _ => 0
+
 /-- the struct a field list denotes, starting from the receiver's previous content -/
 def Base.assemble (p : Base) (fs : List BaseFld) : Base := fs.foldl BaseFld.apply p
 
@@ -181,6 +192,9 @@ def apply (p : BaseResp) : RespFld → BaseResp
   | unknown _ _ _ => p
 end RespFld
 
+def RespFld.kind : RespFld → Nat
+  | .msg _ => 1 | .code _ => 2 | .extra _ => 3 | .unknown _ _ _ => 0
+
 def BaseResp.assemble (p : BaseResp) (fs : List RespFld) : BaseResp := fs.foldl RespFld.apply p
 
 inductive ExFld where
@@ -201,6 +215,9 @@ def apply (e : AppEx) : ExFld → AppEx
   | msg s => { e with msg := s } | typ v => { e with typ := v }
   | unknown _ _ _ => e
 end ExFld
+
+def ExFld.kind : ExFld → Nat
+  | .msg _ => 1 | .typ _ => 2 | .unknown _ _ _ => 0
 
 def AppEx.assemble (e : AppEx) (fs : List ExFld) : AppEx := fs.foldl ExFld.apply e
 
